@@ -152,6 +152,21 @@ func H02a() {
 	}
 	// (Two defects this comparison found on the pinned tree are repaired in
 	// /repo: see the "fixed" entries for C02 in known_findings.json.)
+	n := int(fd.size)
+	vCheckValue(msg, pf, fd, data[:], big)
+	// every field that was not present holds its type's invalid value
+	inv := getMesgAllInvalid(gmn)
+	vSameExcept(msg.Interface(), inv.Interface(), "C02.absent-fields-invalid", vFieldName(msg.Interface(), pf.sindex))
+	vAssert(d.bytes.n == n, "C02.consumed")
+	vReached("compared")
+	vReached("end")
+}
+
+// vCheckValue compares field pf of the decoded message with the value the
+// wire bytes data[:fd.size] denote under definition fd and the byte order.
+func vCheckValue(msg reflect.Value, pf *field, fd fieldDef, data []byte, big bool) {
+	dsz := fd.btype.Size()
+	isStr := fd.btype == types.BaseString
 	fv := msg.Field(pf.sindex)
 	n := int(fd.size)
 	switch pf.t.Kind() {
@@ -240,10 +255,129 @@ func H02a() {
 			}
 		}
 	}
-	// every field that was not present holds its type's invalid value
-	inv := getMesgAllInvalid(gmn)
-	vSameExcept(msg.Interface(), inv.Interface(), "C02.absent-fields-invalid", vFieldName(msg.Interface(), pf.sindex))
-	vAssert(d.bytes.n == n, "C02.consumed")
-	vReached("compared")
+}
+
+// H02b: two-field definitions. One field (the "disturber") is taken from a
+// menu that exercises every way the record parser treats a field — a time or
+// coordinate field at any compatible width, an unlisted field, a developer
+// field, a string, an array — the other is any known scalar field of the
+// message at its profile type. Both orders. Both values are compared with the
+// reference decoder and every other field must hold its invalid value:
+// skipping or widening one field must not disturb its neighbour.
+func H02b() {
+	gmn := MesgNum(vParam("gmn"))
+	var d decoder
+	menu := vParam("menu")
+	first := vParam("first") == 1 // disturber first or second
+	var data [64]byte
+	var fdA fieldDef
+	var pfA *field
+	devSize := 0
+	switch menu {
+	case 0: // time / coordinate field, any compatible width
+		fdA = fieldDef{num: vByte(), size: vByte(), btype: types.Base(vByte())}
+		pf, found := getField(gmn, fdA.num)
+		if !found || pf.t.Kind() == types.NativeFit {
+			vReached("end")
+			return
+		}
+		pfA = pf
+		vAssume(vCanonTab[fdA.btype])
+		fdA.btype = types.Base(vConcretize(int(fdA.btype)))
+		vAssume(int(fdA.size) == fdA.btype.Size())
+		fdA.size = byte(fdA.btype.Size())
+		if !vCompat(fdA, pf) {
+			vReached("end")
+			return
+		}
+	case 1: // unlisted field, 1..4 bytes
+		fdA = fieldDef{num: vByte(), size: byte(vConcretize(vInt(1, 4))), btype: types.BaseByte}
+		if _, found := getField(gmn, fdA.num); found {
+			vReached("end")
+			return
+		}
+	case 2: // developer field of 1..4 bytes (follows the regular fields on the wire)
+		devSize = vConcretize(vInt(1, 4))
+	case 3: // string field, 1..3 bytes
+		fdA = fieldDef{num: vByte(), size: byte(vConcretize(vInt(1, 3))), btype: types.BaseString}
+		pf, found := getField(gmn, fdA.num)
+		if !found || pf.t.BaseType() != types.BaseString || pf.t.Array() {
+			vReached("end")
+			return
+		}
+		pfA = pf
+	default: // array field, one or two elements
+		fdA = fieldDef{num: vByte(), size: vByte(), btype: types.Base(vByte())}
+		pf, found := getField(gmn, fdA.num)
+		if !found || !pf.t.Array() || pf.t.BaseType() == types.BaseString {
+			vReached("end")
+			return
+		}
+		pfA = pf
+		fdA.btype = pf.t.BaseType()
+		k := vConcretize(vInt(1, 2))
+		fdA.size = byte(k * fdA.btype.Size())
+	}
+	// the neighbour: a known scalar native field at its profile type
+	fdB := fieldDef{num: vByte()}
+	pfB, found := getField(gmn, fdB.num)
+	if !found || pfB.t.Array() || pfB.t.BaseType() == types.BaseString || pfB.t.Kind() != types.NativeFit {
+		vReached("end")
+		return
+	}
+	if pfA != nil && pfA == pfB {
+		vReached("end")
+		return
+	}
+	if mb := vParam("maxb"); mb > 0 && pfB.sindex >= mb {
+		// quick tier: neighbours among the first struct fields only
+		vReached("end")
+		return
+	}
+	fdB.btype = pfB.t.BaseType()
+	fdB.size = byte(fdB.btype.Size())
+	big := vBool()
+	var defs []fieldDef
+	offA, offB := 0, 0
+	hasA := menu != 2
+	if hasA && first {
+		defs = []fieldDef{fdA, fdB}
+		offB = int(fdA.size)
+	} else if hasA {
+		defs = []fieldDef{fdB, fdA}
+		offA = int(fdB.size)
+	} else {
+		defs = []fieldDef{fdB}
+	}
+	total := int(fdB.size) + devSize
+	if hasA {
+		total += int(fdA.size)
+	}
+	vBytes(data[:total])
+	for _, fd := range defs {
+		vAssert(d.validateFieldDef(gmn, fd) == nil, "C02.multi.definition-accepted")
+	}
+	vFeed(&d, data[:])
+	d.bytes.limit = total
+	dm := &defmsg{arch: vArch(big), globalMsgNum: gmn, fields: byte(len(defs)), fieldDefs: defs}
+	if devSize > 0 {
+		dm.devDataFieldDescs = []devDataFieldDesc{{fieldNum: 0, size: byte(devSize), devDataIndex: 0}}
+	}
+	d.defmsgs[0] = dm
+	msg, err := d.parseDataMessage(0, false)
+	vAssert(err == nil && msg.IsValid(), "C02.multi.record-decodes")
+	if err != nil || !msg.IsValid() {
+		vReached("end")
+		return
+	}
+	vCheckValue(msg, pfB, fdB, data[offB:], big)
+	except := []string{vFieldName(msg.Interface(), pfB.sindex)}
+	if pfA != nil {
+		vCheckValue(msg, pfA, fdA, data[offA:], big)
+		except = append(except, vFieldName(msg.Interface(), pfA.sindex))
+	}
+	vSameExcept(msg.Interface(), getMesgAllInvalid(gmn).Interface(), "C02.multi.absent-fields-invalid", except...)
+	vAssert(d.bytes.n == total, "C02.multi.consumed")
+	vReached("compared-multi")
 	vReached("end")
 }
